@@ -20,7 +20,7 @@ func init() { registry["C07"] = propC07 }
 func propC07() *Property {
 	return &Property{
 		ID:          "C07",
-		Explanation: "Dispatcher coverage and crash obligations of the UI only. Decided: (R1) the keys documented in readme.md and in main's help text agree with each other, each is handled by ui.State.Update, and each case calls what the keymap names (j→MoveDown, k→MoveUp, g→MoveToCenter, h→Back, l→Forward, space/c/r/a→switchTo, o/p/b→openExternally; digits, ':', '.', Enter, Esc, Backspace are tested); (R2) every explicit panic in ui, feed, history and ansi that is reachable from Update / SetWidthHeight / Subcommand is discharged: the constants stored to State.mode are handled by view, ReplaceLastLine only receives text that went through ansi.SetLength, feed.Get is called only under Contains of the same offset on the same feed, switchTo only receives values whose dynamic type it handles — and no other panic exists there (a panic guarded by the outcome of parsing typed text has no static discharge); (R3) the results of the unguarded accessor feed.Current() are checked against nil before they are used as a receiver or handed to switchTo; (R4) Update returns before touching any state while the mode is loading. (R6) every value added to the history is a Page allocated by the adding function, through every phi edge: entries never share a page. (R7) every background load is delivered to the page it was started for (in-flight flag pairing; the instances of C08.R9). (R8 = C12.R7) a link list that is stored next to an error is empty whenever the error may be set, so a number typed by the user cannot select a link that was shown without a number. (R12) every handler of a plain key in Update — the taken side of input == K, or the place where a table of handlers is indexed with the key — is dominated, as far as the mode is concerned, only by mode != loading, != command, != selection: the keymap is live in the opening and problem modes too. (R13 = C12.R9) the digit keys: exactly '0'..'9' are taken; on every path the mode becomes selection and the digit starts a fresh number outside selection mode, extends the number inside it. (R14 = C18.R1) the history behind h, l and opening a page behaves as a list with a cursor. (R15) the first harvest of switchTo asks for at least one item under every accepted preload_amount. NOT decided: that after an arbitrary key history cursor, page and mode equal the keymap's prediction (refinement over unbounded histories), quiescence of background loads, and History.Current on an empty history (holds by an invariant relating mode and history length that is not structural).",
+		Explanation: "Dispatcher coverage and crash obligations of the UI only. Decided: (R1) the keys documented in readme.md and in main's help text agree with each other, each is handled by ui.State.Update, and each case calls what the keymap names (j→MoveDown, k→MoveUp, g→MoveToCenter, h→Back, l→Forward, space/c/r/a→switchTo, o/p/b→openExternally; digits, ':', '.', Enter, Esc, Backspace are tested); (R2) every explicit panic in ui, feed, history and ansi that is reachable from Update / SetWidthHeight / Subcommand is discharged: the constants stored to State.mode are handled by view, ReplaceLastLine only receives text that went through ansi.SetLength, feed.Get is called only under Contains of the same offset on the same feed, switchTo only receives values whose dynamic type it handles — and no other panic exists there (a panic guarded by the outcome of parsing typed text has no static discharge); (R3) the results of the unguarded accessor feed.Current() are checked against nil before they are used as a receiver or handed to switchTo; (R4) Update returns before touching any state while the mode is loading. (R6) every value added to the history is a Page allocated by the adding function, through every phi edge: entries never share a page. (R7) every background load is delivered to the page it was started for (in-flight flag pairing; the instances of C08.R9). (R8 = C12.R7) a link list that is stored next to an error is empty whenever the error may be set, so a number typed by the user cannot select a link that was shown without a number. (R12) every handler of a plain key in Update — the taken side of input == K, or the place where a table of handlers is indexed with the key — is dominated, as far as the mode is concerned, only by mode != loading, != command, != selection: the keymap is live in the opening and problem modes too. (R13 = C12.R9) the digit keys: exactly '0'..'9' are taken; on every path the mode becomes selection and the digit starts a fresh number outside selection mode, extends the number inside it. (R14 = C18.R1) the history behind h, l and opening a page behaves as a list with a cursor. (R15) the first harvest of switchTo asks for at least one item under every accepted preload_amount. (R16 = C20.R5) the keys that open a link externally never meet a missing media type. NOT decided: that after an arbitrary key history cursor, page and mode equal the keymap's prediction (refinement over unbounded histories), quiescence of background loads, and History.Current on an empty history (holds by an invariant relating mode and history length that is not structural).",
 		Assumptions: []string{"readme.md 'Keybindings' and main.help() are the documented keymap"},
 		Rules: []Rule{
 			{ID: "C07.R1", Title: "documented keys have the documented handlers", Floor: 12, Run: c07R1},
@@ -31,6 +31,7 @@ func propC07() *Property {
 			{ID: "C07.R6", Title: "every history entry is a page of its own", Floor: 1, Run: c07R6},
 			{ID: "C07.R7", Title: "a background load is delivered to the page it was started for (in-flight flag pairing; same instances as C08.R9)", Floor: 8, Run: c08R9},
 			{ID: "C07.R9", Title: "when the media hook ends it touches the input mode only if the UI is still showing `opening`", Floor: 2, Run: c07R9},
+			{ID: "C07.R16", Title: "the keys that open a link externally never meet a missing media type (same instances as C20.R5)", Floor: 2, Run: c20R5},
 			{ID: "C07.R15", Title: "a list that is opened shows at least the item it highlights: the first harvest of switchTo asks for at least one item under every accepted preload_amount (>= 0)", Floor: 1, Run: c07R15},
 			{ID: "C07.R14", Title: "h, l and opening a page move through the history as a list with a cursor does (same instances as C18.R1)", Floor: 10, Run: c18R1},
 			{ID: "C07.R13", Title: "the digit keys do what the keymap says in every mode: they start or extend a link number and switch to selection (same instances as C12.R9)", Floor: 3, Run: c12R9},
